@@ -61,6 +61,10 @@ fn all_kinds() -> Vec<(&'static str, Value)> {
         ("fixed-array", json!({"type": "array", "items": {"type": "integer"}, "minItems": 3, "maxItems": 3})),
         ("struct-inline", json!({"type": "object", "properties": {"a": {"type": "integer"}, "b": {"type": "string", "default": "bee"}}, "required": ["a"]})),
         ("struct-flatten", json!({"type": "object", "properties": {"a": {"type": "integer"}}, "required": ["a"], "additionalProperties": {"type": "string"}})),
+        // members whose JSON name is not the Rust field name, next to flattened extras
+        ("struct-flatten-renamed", json!({"type": "object", "properties": {"maxRetries": {"type": "integer"}, "name": {"type": "string"}}, "required": ["maxRetries"], "additionalProperties": {"type": "string"}})),
+        ("struct-flatten-renamed", json!({"type": "object", "properties": {"max-retries": {"type": "integer"}, "type": {"type": "string"}}, "additionalProperties": {"type": "integer"}})),
+        ("struct-renamed", json!({"type": "object", "properties": {"maxRetries": {"type": "integer"}, "type": {"type": "string", "default": "plain"}, "1st": {"type": "boolean"}}, "required": ["maxRetries"]})),
         ("struct-ref", r("AuxStruct")),
         ("enum-ref", r("AuxEnum")),
         ("newtype-ref", r("AuxShort")),
